@@ -168,7 +168,7 @@ PROPS = {
  },
  'C02': {
   'level_text': 'PARTIAL. Coq theorems (closed under the global context): the panic sites of the MODELLED code are unreachable - Reader cursor (frame counter subtraction, both assertions, frame_control.unwrap) from every state and '
-                'visible prefix; create_rgba_palette for every PLTE/tRNS payload; expand_pass for every legal argument; StreamingDecoder::update never exhausts its loop budget and every error/panic outcome poisons. Panics of '
+                'visible prefix; create_rgba_palette for every PLTE/tRNS payload; expand_pass for every legal argument; StreamingDecoder::update never exhausts its loop budget and every error/panic outcome poisons; the stream machine as a whole reaches NEITHER of its two panic sites (state unwrap, fdAT sequence-number assertion/subtraction) for any bytes, options, limit, cuts and ANY inflater behaviour, also after reset(), and its chunk parsers have no panic outcome. Panics of '
                 'un-modelled code (std, fdeflate, buffer index arithmetic, row transforms, text) and aborts cannot be exhibited by a Gallina model: they are searched on every run with catch_unwind in a build with overflow '
                 'checks and debug assertions, plus the orchestrator watchdog for aborts/hangs.',
   'level_note': '''Trusted: Coq kernel; hand model of the Reader cursor (coq/Model/Reader.v) tied by differential execution of op sequences (C13 harness emits the abstract trace of every sequence and the extracted model must reproduce it); models of palette.rs / adam7.rs / stream.rs tied by their own correspondences. The search half is exploration, not proof.''',
